@@ -63,7 +63,8 @@ def gen_rrset(rng, pool, types, origin, relative, big=False, rdclass=1):
     oname = lname(owner)
     if relative and origin is not None:
         oname = oname.relativize(lname(origin))
-    rrset = dns.rrset.RRset(oname, rds[0].rdclass, rds[0].rdtype, covers)
+    # signature sets: the covered type is given, or left for add() to take from the first record (both are API usage)
+    rrset = dns.rrset.RRset(oname, rds[0].rdclass, rds[0].rdtype, covers) if rng.random() < 0.5 else dns.rrset.RRset(oname, rds[0].rdclass, rds[0].rdtype)
     ttl = rng.choice((0, 1, 300, 3600, 86400, 2**31 - 1, rng.randrange(2**31)))
     for r in rds:
         rrset.add(r, ttl)
